@@ -218,50 +218,50 @@ def r2(ctx):
                 got[names[1]] = (idx, toggled)
         ok_ret = got == {"colors": (("param", 1, "a1"), True), "pieces": (("param", 2, "a2"), True)}
     ctx.ob("Board::xor bitboards", ok_ret, "Board::xor does not toggle colors[color] and pieces[piece] by `diff`", site=site, sample={"toggles": "colors[color] ^= diff; pieces[piece] ^= diff"})
-    folds = [(bi, t_) for bi, t_ in P.calls(key) if "Iterator>::fold::<" in t_["f"].get("fn_args", "")]
-    if not loops and len(folds) == 1:
-        # fold form: self.zobrist = diff.into_iter().fold(self.zobrist, |h, pos| h ^ KEY[color][pos][piece]) -- the closure is the per-square step
-        body_ = P.body(key)
-        ck = [k_ for k_ in P.fns if k_.startswith(key + "::{closure")]
-        caps = []
-        for blk in body_["blocks"]:
-            for s in blk["s"]:
-                r = s.get("r", {})
-                if r.get("k") == "agg" and r.get("ak") == "closure":
-                    caps = [k2.describe_operand(P, body_, o) for o in r["ops"]]
-        cap_place = []
-        for c_ in caps:
-            while isinstance(c_, tuple) and c_ and c_[0] == "ref":
-                c_ = c_[1]
-            cap_place.append(c_)
-        ok_fold = len(ck) == 1
-        if ok_fold:
-            clv = T.Engine(P).tabulate(ck[0])
-            cb = P.body(ck[0])
+    if not loops:
+        # fold form, wherever it is written (in Board::xor or in a private helper, starting from the old hash or from 0 and xor-ed in afterwards):
+        # the new hash, read as a term, is  old hash ^ fold(squares of diff, 0, |h, pos| h ^ KEY[color][pos][piece])
+        ok_fold = len(rets) == 1
+        old_hash = ("field", ("obj", slf), "zobrist")
+        for lf in rets:
+            f_ = eng2.freeze(lf.state, lf.ext.get(slf, ("obj", slf)))
+            zob = T.get_path(f_, (("f", 0, "zobrist", None),))
+            others, fparts, work = [], [], list(xor_terms(zob))
+            while work:
+                x = work.pop()
+                if x[0] == "app" and "Iterator>::fold::<" in x[1] and len(x[2]) == 3:
+                    fparts.append(x)
+                    work += [y for y in xor_terms(x[2][1]) if not (T.is_const(y) and y[1] == 0)]
+                else:
+                    others.append(x)
+            ok_fold &= others == [old_hash] and len(fparts) == 1
+            if not ok_fold:
+                break
+            it, _, clo = fparts[0][2]
+            ok_fold &= diff in subterms(it) and any(x[0] == "adt" and "BitBoardIter" in x[1] or x[0] == "app" and "BitBoardIter" in x[1] for x in subterms(it)) and clo[0] == "closure"
+            if not ok_fold:
+                break
+            clv = T.Engine(P).tabulate(clo[1])
+            cb = P.body(clo[1])
             env, acc, pos_p = [("param", i, cb["locals"][i + 1]["n"]) for i in range(3)]
-            ok_fold = len(clv) == 1
-            for lf in clv:
-                ts = xor_terms(lf.ret)
+            ok_fold &= len(clv) == 1
+            for cl in clv:
+                ts = xor_terms(cl.ret)
                 keys = [key_triple(x) for x in ts if x != acc]
                 ok_fold &= acc in ts and len(ts) == 2 and len(keys) == 1 and keys[0] is not None
                 if ok_fold:
                     c_, s_, p_ = keys[0]
-                    # colour and piece are captured parameters of Board::xor; the square is the folded item
                     def cap_of(x):
                         y = x
                         while isinstance(y, tuple) and y and y[0] == "obj":
                             y = y[1]
-                        if isinstance(y, tuple) and y and y[0] == "field" and y[1] in (env, ("obj", env)) and isinstance(y[2], int) and y[2] < len(cap_place):
-                            return cap_place[y[2]]
+                        if isinstance(y, tuple) and y and y[0] == "field" and y[1] in (env, ("obj", env)) and isinstance(y[2], int) and y[2] < len(clo[2]):
+                            z = clo[2][y[2]]
+                            while isinstance(z, tuple) and z and z[0] in ("refv", "obj", "ref"):
+                                z = z[1]
+                            return z
                         return None
-                    ok_fold &= cap_of(c_) == ("place", "a1", ()) and cap_of(p_) == ("place", "a2", ()) and s_ == pos_p
-        # the fold runs over `diff`, starts from the old hash, and its result becomes the hash, unconditionally
-        final = [eng2.freeze(lf.state, lf.ext.get(slf, ("obj", slf))) for lf in rets]
-        for f_ in final:
-            zob = T.get_path(f_, (("f", 0, "zobrist", None),))
-            ok_fold &= (zob[0] == "app" and "Iterator>::fold::<" in zob[1] and len(zob[2]) == 3 and diff in subterms(zob[2][0])
-                        and zob[2][1] == ("field", ("obj", slf), "zobrist"))
-        ok_fold &= len(rets) == 1 and cfg.cfg_of(body_).postdominates(folds[0][0], 0)
+                    ok_fold &= cap_of(c_) == ("param", 1, "a1") and cap_of(p_) == ("param", 2, "a2") and s_ == pos_p
         ctx.ob("Board::xor hash", ok_fold, "Board::xor does not xor the piece key of (color, each square of diff, piece) into the hash (fold form)", site=site,
                sample={"per-item": "hash ^ PIECE_ZOBRIST[color][pos in diff][piece]"})
         ctx.ob("Board::xor loop unconditional", ok_fold, "the hash fold of Board::xor is conditional", site=site)
